@@ -97,6 +97,10 @@ func NewVirtualISO(fs afero.Fs, root string, ps3Mode bool) (*VirtualISO, error) 
 		root += string(os.PathSeparator)
 	}
 
+	// the same directory must give the same image whatever way it's spelled ("dir/", "dir/.", "dir//"):
+	// name of the directory goes to volume identifiers and paths are compared to find parent directories
+	root = filepath.Clean(root)
+
 	ret := &VirtualISO{
 		fs:        fs,
 		root:      root,
